@@ -73,6 +73,7 @@ func openMemory(mach *am.Machine, cfg CfgJ) (Backend, error) {
 }
 
 func (b *memB) Mem() amhist.MemoryApi { return b.mem }
+func (b *memB) Counters() (int, int)  { return 0, 0 }
 func (b *memB) Quiesce(int) bool      { return true }
 func (b *memB) Close()                { _ = b.mem.Dispose() }
 func (b *memB) Abandon()              { _ = b.mem.Dispose() }
@@ -119,8 +120,11 @@ func openBbolt(name string, mach *am.Machine, cfg CfgJ) (Backend, error) {
 }
 
 func (b *bboltB) Mem() amhist.MemoryApi { return b.mem }
-func (b *bboltB) Close()                { _ = b.mem.Dispose() }
-func (b *bboltB) Abandon()              { _ = b.db.Close() }
+func (b *bboltB) Counters() (int, int) {
+	return int(b.mem.Saved.Load()), int(b.mem.SavedGc.Load())
+}
+func (b *bboltB) Close()   { _ = b.mem.Dispose() }
+func (b *bboltB) Abandon() { _ = b.db.Close() }
 
 // Quiesce: Saved is incremented INSIDE the bbolt write transaction, before it
 // commits; an empty write transaction afterwards is a barrier (single writer).
@@ -284,8 +288,11 @@ func openBadger(name string, mach *am.Machine, cfg CfgJ) (Backend, error) {
 }
 
 func (b *badgerB) Mem() amhist.MemoryApi { return b.mem }
-func (b *badgerB) Close()                { _ = b.mem.Dispose() }
-func (b *badgerB) Abandon()              { _ = b.db.Close() }
+func (b *badgerB) Counters() (int, int) {
+	return int(b.mem.Saved.Load()), int(b.mem.SavedGc.Load())
+}
+func (b *badgerB) Close()   { _ = b.mem.Dispose() }
+func (b *badgerB) Abandon() { _ = b.db.Close() }
 
 func (b *badgerB) Quiesce(created int) bool {
 	return waitFor(func() bool {
@@ -371,8 +378,11 @@ func openGorm(name string, mach *am.Machine, cfg CfgJ) (Backend, error) {
 }
 
 func (b *gormB) Mem() amhist.MemoryApi { return b.mem }
-func (b *gormB) Close()                { _ = b.mem.Dispose() }
-func (b *gormB) Abandon()              { _ = b.mem.Dispose() }
+func (b *gormB) Counters() (int, int) {
+	return int(b.mem.Saved.Load()), int(b.mem.SavedGc.Load())
+}
+func (b *gormB) Close()   { _ = b.mem.Dispose() }
+func (b *gormB) Abandon() { _ = b.mem.Dispose() }
 
 func gormRaw(mem *hgorm.Memory) ([]RawRec, error) {
 	var rows []hgorm.Time
